@@ -13,7 +13,8 @@ Definition type_alignment (c : N) : N := nth (N.to_nat c) tbl_type_alignment 0.
 
 Record sigst := mkSigSt {
   struct_depth : N; array_depth : N; dict_depth : N; last_c : N;
-  stack : list N            (* element_count_stack, head = last list element *)
+  stack : list N;           (* element_count_stack, head = last list element *)
+  brackets : list N         (* opened_brackets[], head = innermost open bracket *)
 }.
 
 Definition pop (st : list N) : N * list N :=
@@ -31,23 +32,25 @@ Definition sig_step (st : sigst) (c next : N) : sigst + Z :=
     if is_switch_basic c then inl st
     else if c =? DBUS_TYPE_ARRAY then
       if maxd <? array_depth st + 1 then inr V_INVALID_EXCEEDED_MAXIMUM_ARRAY_RECURSION
-      else inl (mkSigSt (struct_depth st) (array_depth st + 1) (dict_depth st) (last_c st) (stack st))
+      else inl (mkSigSt (struct_depth st) (array_depth st + 1) (dict_depth st) (last_c st) (stack st) (brackets st))
     else if c =? DBUS_STRUCT_BEGIN_CHAR then
       if maxd <? struct_depth st + 1 then inr V_INVALID_EXCEEDED_MAXIMUM_STRUCT_RECURSION
-      else inl (mkSigSt (struct_depth st + 1) (array_depth st) (dict_depth st) (last_c st) (0 :: stack st))
+      else inl (mkSigSt (struct_depth st + 1) (array_depth st) (dict_depth st) (last_c st) (0 :: stack st) (DBUS_STRUCT_BEGIN_CHAR :: brackets st))
     else if c =? DBUS_STRUCT_END_CHAR then
       if struct_depth st =? 0 then inr V_INVALID_STRUCT_ENDED_BUT_NOT_STARTED
       else if last_c st =? DBUS_STRUCT_BEGIN_CHAR then inr V_INVALID_STRUCT_HAS_NO_FIELDS
-      else inl (mkSigSt (struct_depth st - 1) (array_depth st) (dict_depth st) (last_c st) (snd (pop (stack st))))
+      else if negb (fst (pop (brackets st)) =? DBUS_STRUCT_BEGIN_CHAR) then inr V_INVALID_STRUCT_ENDED_BUT_NOT_STARTED
+      else inl (mkSigSt (struct_depth st - 1) (array_depth st) (dict_depth st) (last_c st) (snd (pop (stack st))) (snd (pop (brackets st))))
     else if c =? DBUS_DICT_ENTRY_BEGIN_CHAR then
       if negb (last_c st =? DBUS_TYPE_ARRAY) then inr V_INVALID_DICT_ENTRY_NOT_INSIDE_ARRAY
       else if maxd <? dict_depth st + 1 then inr V_INVALID_EXCEEDED_MAXIMUM_DICT_ENTRY_RECURSION
-      else inl (mkSigSt (struct_depth st) (array_depth st) (dict_depth st + 1) (last_c st) (0 :: stack st))
+      else inl (mkSigSt (struct_depth st) (array_depth st) (dict_depth st + 1) (last_c st) (0 :: stack st) (DBUS_DICT_ENTRY_BEGIN_CHAR :: brackets st))
     else if c =? DBUS_DICT_ENTRY_END_CHAR then
       if dict_depth st =? 0 then inr V_INVALID_DICT_ENTRY_ENDED_BUT_NOT_STARTED
+      else if negb (fst (pop (brackets st)) =? DBUS_DICT_ENTRY_BEGIN_CHAR) then inr V_INVALID_DICT_ENTRY_ENDED_BUT_NOT_STARTED
       else
         let '(cnt, stk) := pop (stack st) in
-        if cnt =? 2 then inl (mkSigSt (struct_depth st) (array_depth st) (dict_depth st - 1) (last_c st) stk)
+        if cnt =? 2 then inl (mkSigSt (struct_depth st) (array_depth st) (dict_depth st - 1) (last_c st) stk (snd (pop (brackets st))))
         else if cnt =? 0 then inr V_INVALID_DICT_ENTRY_HAS_NO_FIELDS
         else if cnt =? 1 then inr V_INVALID_DICT_ENTRY_HAS_ONLY_ONE_FIELD
         else inr V_INVALID_DICT_ENTRY_HAS_TOO_MANY_FIELDS
@@ -59,7 +62,7 @@ Definition sig_step (st : sigst) (c next : N) : sigst + Z :=
       let st2 :=
         if negb (c =? DBUS_TYPE_ARRAY) && negb (c =? DBUS_DICT_ENTRY_BEGIN_CHAR) && negb (c =? DBUS_STRUCT_BEGIN_CHAR)
         then let '(cnt, stk) := pop (stack st1) in
-             mkSigSt (struct_depth st1) (array_depth st1) (dict_depth st1) (last_c st1) ((cnt + 1) :: stk)
+             mkSigSt (struct_depth st1) (array_depth st1) (dict_depth st1) (last_c st1) ((cnt + 1) :: stk) (brackets st1)
         else st1 in
       (* array bookkeeping *)
       let r3 : sigst + Z :=
@@ -67,14 +70,14 @@ Definition sig_step (st : sigst) (c next : N) : sigst + Z :=
           if c =? DBUS_TYPE_ARRAY then
             if (next =? DBUS_STRUCT_END_CHAR) || (next =? DBUS_DICT_ENTRY_END_CHAR)
             then inr V_INVALID_MISSING_ARRAY_ELEMENT_TYPE else inl st2
-          else inl (mkSigSt (struct_depth st2) 0 (dict_depth st2) (last_c st2) (stack st2))
+          else inl (mkSigSt (struct_depth st2) 0 (dict_depth st2) (last_c st2) (stack st2) (brackets st2))
         else inl st2 in
       match r3 with
       | inr e => inr e
       | inl st3 =>
           if (last_c st3 =? DBUS_DICT_ENTRY_BEGIN_CHAR) && negb (type_valid c && type_basic c)
           then inr V_INVALID_DICT_KEY_MUST_BE_BASIC_TYPE
-          else inl (mkSigSt (struct_depth st3) (array_depth st3) (dict_depth st3) c (stack st3))
+          else inl (mkSigSt (struct_depth st3) (array_depth st3) (dict_depth st3) c (stack st3) (brackets st3))
       end
   end.
 
@@ -92,7 +95,7 @@ Fixpoint sig_loop (s : bytes) (st : sigst) : Z :=
       end
   end.
 
-Definition sig_init : sigst := mkSigSt 0 0 0 0 [0].
+Definition sig_init : sigst := mkSigSt 0 0 0 0 [0] [].
 
 Definition validate_signature_reason (s : bytes) : Z :=
   if DBUS_MAXIMUM_SIGNATURE_LENGTH <? nlen s then V_INVALID_SIGNATURE_TOO_LONG
